@@ -132,7 +132,7 @@ VALUES = [0, 0, 1, 1, 5, 100, -3, 0.5, -0.25, 40]
 DVALUES = [0, 1, 1, 2, -1, 0.5]
 
 
-def random_sd(rng, max_subnets=5, max_size=3, small=False, family=None):
+def random_sd(rng, max_subnets=5, max_size=3, small=False, family=None, wide_frac=0.0):
     if family is None:
         family = "random" if (small or rng.random() < 0.6) else rng.choice(["ring", "diamond", "star", "chain"])
     if family == "random":
@@ -222,7 +222,8 @@ def random_sd(rng, max_subnets=5, max_size=3, small=False, family=None):
         hfw = {}
         if rng.random() < (0.6 if small else 0.3):
             for _ in range(rng.randint(1, 3 if small else 2)):
-                hfw[rng.choice(addrs)] = sorted(rng.sample(range(nsrv), rng.randint(1, nsrv)))
+                src_ = a if rng.random() < 0.2 else rng.choice(addrs)      # a host may deny traffic from itself
+                hfw[src_] = sorted(rng.sample(range(nsrv), rng.randint(1, nsrv)))
         hosts.append((a, dict(os=[i == os_i for i in range(nos)], srv=srv, proc=proc,
                               val=rng.choice(VALUES), dval=rng.choice(DVALUES), fw=hfw)))
     # make public entry likely
@@ -253,9 +254,44 @@ def random_sd(rng, max_subnets=5, max_size=3, small=False, family=None):
     if rng.random() < 0.3:
         b0 += rng.randint(0, 3)
         b1 += rng.randint(0, 3)
+    if rng.random() < wide_frac:
+        b0, b1 = b0 + rng.choice([124, 200]), b1 + rng.choice([126, 60])     # host vectors wider than 256 entries
     sd = dict(subnets=subnets, topo=topo, nos=nos, nsrv=nsrv, nproc=nproc, exploits=exploits,
               privescs=privescs, costs=costs, fw=fw, hosts=hosts, sens=sens, limit=limit, bounds=(b0, b1))
     return maybe_collide(rng, sd)
+
+
+def small_values(rng, sd):
+    """every value and discovery value below 2, exploits grant USER only, root comes from an escalation: the access
+    level is then the largest number an observation can hold"""
+    hosts = [(a, dict(c, val=rng.choice([0, 0.5, 1, 1.5]), dval=rng.choice([0, 1, 0.5]),
+                      proc=[True] + list(c["proc"][1:]))) for a, c in sd["hosts"]]
+    hm = dict(hosts)
+    out = dict(sd, hosts=hosts, sens=[(a, hm[a]["val"]) for a, _ in sd["sens"]],
+               exploits=[dict(e, acc=1, prob=1.0) for e in sd["exploits"]],
+               privescs=[dict(proc=0, os=None, prob=1.0, cost=1, acc=2)] + [dict(q) for q in sd["privescs"][:1]])
+    out.pop("anames", None)
+    return out
+
+
+def widen_subnet(rng, sd):
+    """one subnet grows to 11-13 hosts (two-digit host ids); some hosts deny services from its late hosts"""
+    sd = dict(sd)
+    s_ = rng.randrange(1, len(sd["subnets"]))
+    old, new = sd["subnets"][s_], rng.randint(11, 13)
+    subnets = list(sd["subnets"])
+    subnets[s_] = new
+    hosts = [(a, dict(c)) for a, c in sd["hosts"]]
+    tmpl = dict(hosts)[(s_, 0)]
+    for h in range(old, new):
+        hosts.append(((s_, h), dict(tmpl, fw={}, val=0, dval=tmpl["dval"])))
+    for a, c in hosts:
+        if rng.random() < 0.4:
+            c["fw"] = dict(c["fw"])
+            c["fw"][(s_, rng.randint(10, new - 1))] = sorted(rng.sample(range(sd["nsrv"]), rng.randint(1, sd["nsrv"])))
+    b0, b1 = sd["bounds"]
+    sd.update(subnets=subnets, hosts=hosts, bounds=(b0, max(b1, new)))
+    return sd
 
 
 def maybe_collide(rng, sd):
@@ -317,7 +353,8 @@ def explore_sd(rng):
         if rng.random() < 0.5:
             for _ in range(rng.randint(1, 2)):
                 # mostly proper subsets: the verdict then depends on the service, not only on the source
-                c["fw"][rng.choice(addrs)] = sorted(rng.sample(range(nsrv), rng.randint(1, max(1, nsrv - 1))))
+                src_ = a if rng.random() < 0.25 else rng.choice(addrs)       # also: traffic denied from the host itself
+                c["fw"][src_] = sorted(rng.sample(range(nsrv), rng.randint(1, max(1, nsrv - 1))))
         hosts.append((a, c))
     sd["hosts"] = hosts
     for k in list(sd["fw"]):
